@@ -62,6 +62,15 @@ def run(case, ctx, rng):
             call(obj.dec, B + b'x'); call(obj.enc, B[:-1])
             ctx.eq('dec(enc(B))==B', call(lambda: obj.dec(obj.enc(B))), B, after_refused_calls=True, **det)
             ctx.eq('enc(dec(B))==B', call(lambda: obj.enc(obj.dec(B))), B, after_refused_calls=True, **det)
+        if c == 'des' and not is_exc(e):
+            from crysp.bits import Bits
+            o3 = c02.build(c, K, T, kbits); o3.enc(B)
+            o3.K = Bits(rng.randbytes(8), 64)             # re-keyed through the public attribute
+            ctx.eq('dec(enc(B))==B', call(lambda: o3.dec(o3.enc(B))), B, rekeyed=True, **det)
+        if c.startswith('aes') and not is_exc(e):
+            o4 = c02.build(c, K, T, kbits); o4.enc(B)
+            o4.Nr = o4.Nr - 2                              # reduced-round variant on a live object: still a permutation pair
+            ctx.eq('dec(enc(B))==B', call(lambda: o4.dec(o4.enc(B))), B, reduced_rounds=True, **det)
         # a second object with the same key inverts the first (no per-object state in the inverse)
         if not is_exc(e):
             ctx.eq('dec(enc(B))==B', call(lambda: c02.build(c, K, T, kbits).dec(e)), B, fresh_object=True, **det)
